@@ -62,7 +62,7 @@ def strategy(tier: str, pid: str = "C14") -> st.SearchStrategy[Any]:
     )
     return st.fixed_dictionaries({"ngroups": st.integers(1, 3), "ops": st.lists(op, min_size=3, max_size=max_ops),
                                   # number of components in each of the three (disjoint) component groups
-                                  "sizes": st.lists(st.integers(1, 7), min_size=3, max_size=3)})
+                                  "sizes": st.tuples(st.integers(0, 7), st.integers(1, 7), st.integers(1, 7)).map(list)})
 
 
 def run_case(case: Any, pid: str) -> Verdict:
@@ -76,6 +76,8 @@ def run_case(case: Any, pid: str) -> Verdict:
     gidx = {groups[i]: i for i in range(3)}
     if max(sizes[:ngroups]) >= 5:
         v.labels.add("component_group_of_5_or_more")
+    if sizes[0] == 0:
+        v.labels.add("empty_component_group")
     active: dict[int, int] = {}
 
     class Probe:
